@@ -114,6 +114,8 @@ def run(chk, repo):
     chk.attempt(grouping_semantics, chk, repo, mod, covered_by="summary_eval", rules=("C14-S6",))
     chk.attempt(section_schema, chk, repo, mod)
     chk.attempt(keyword_order, chk, repo, mod)
+    from .c13 import summary_published_as_parsed
+    chk.attempt(summary_published_as_parsed, chk, repo)
     chk.count("functions", 3)
 
 
